@@ -96,6 +96,19 @@ def main():
                 if pb and not pb.startswith("NORMALISED"): rec["problems"].append("writing into an array loaded with mmap_mode='c' changed the file: " + pb)
             # through a file object / bytes buffer as well
             if cs["mmap_mode"] == "None":
+                class ShortReads(io.RawIOBase):
+                    """an unbuffered stream that hands out at most 4099 bytes per read (pipe, socket, slow network file)"""
+                    def __init__(s, data): s.b = io.BytesIO(data)
+                    def readable(s): return True
+                    def readinto(s, buf):
+                        chunk = s.b.read(min(len(buf), 4099)); buf[:len(chunk)] = chunk; return len(chunk)
+                    def seekable(s): return True
+                    def seek(s, *a): return s.b.seek(*a)
+                    def tell(s): return s.b.tell()
+                r3 = joblib.load(ShortReads(open(path, "rb").read()))
+                g3s = r3 if cs["container"] == "alone" else r3[1] if cs["container"] == "list" else r3["y"]
+                pb = same(a, g3s)
+                if pb: rec["problems"].append("load from a stream with short reads: " + pb)
                 buf = io.BytesIO(); joblib.dump(obj, buf, compress=comp); r2 = joblib.load(io.BytesIO(buf.getvalue()))
                 g2 = r2 if cs["container"] == "alone" else r2[1] if cs["container"] == "list" else r2["y"]
                 pb = same(a, g2)
